@@ -15,7 +15,7 @@ TRAIL = ["lying within RoW", "lying north of the river", "described in Book 52, 
 
 
 def cases_for_doc(cid, abstract, rng):
-    doc = plssdoc.concretise(abstract, rng)
+    doc = plssdoc.concretise(abstract, rng, vary_tr=True)
     lay = doc["layout"]
     out = []
     text = plssdoc.render_doc(doc, rng)
